@@ -1,5 +1,6 @@
 pub mod common;
 pub mod c01;
+pub mod c02;
 pub mod c03;
 pub mod c09;
 pub mod c14;
@@ -14,6 +15,7 @@ pub type ReplayFn = fn(&Value) -> Result<Verdict, String>;
 pub fn registry(id: &str) -> Option<(RunFn, ReplayFn)> {
     match id {
         "C01" => Some((c01::run, c01::replay)),
+        "C02" => Some((c02::run, c02::replay)),
         "C03" => Some((c03::run, c03::replay)),
         "C09" => Some((c09::run, c09::replay)),
         "C14" => Some((c14::run, c14::replay)),
